@@ -48,7 +48,12 @@ EXPLANATION = (
     'users by cyclic shift and orthogonality of shifted sequences only need '
     '|r_k| = 1 and exact roots of unity for the phase ramp, so they are '
     'decided here; zero autocorrelation / flat spectrum of actual Zadoff-Chu '
-    'values (Gauss sums) are only run concretely.')
+    'values (Gauss sums) are only run concretely.  Every estimator scenario '
+    'is a history on ONE root object (earlier normalised users on shift 0, '
+    'then the users under test): the root keeps its values and every user '
+    'sequence equals exp(j 2 pi n_cs k/D) root_k.  The LS estimator also runs '
+    'on single-antenna pilot rows with entries fixed to 0 (comb pilots), on '
+    '3-D inputs, and on an arbitrary observation (normal equations).')
 
 
 # ---------------------------------------------------------------------------
@@ -71,6 +76,13 @@ class _ExactExpNP(SymNP):
                         out[idx] = SComplex(c, s)
                     return out if arr.ndim else out[()]
         return super().exp(a)
+
+    def common_type(self, *arrays):
+        # compute_ls_estimation allocates its 3-D result with
+        # dtype=np.common_type(Y_p, s); numpy rejects object arrays
+        if active() and any(is_sym(a) for a in arrays):
+            return object
+        return np.common_type(*arrays)
 
 
 EXACT_NP = _ExactExpNP()
@@ -445,17 +457,25 @@ class Amplitude(Harness):
         elif cfg['kind'] == 'shift':
             N, D = cfg['N'], cfg['D']
             root = unit_seq(ctx, 'r', N)
+            before = root.copy()
             ncs = ctx.real('n_cs', lo=0, hi=D - 1)
-            out = zc.get_shifted_root_seq(root, ncs, D)
+            if ncs == 0:          # explicit case split: no cyclic shift
+                out = zc.get_shifted_root_seq(root, 0, D)
+                ref = before
+            else:
+                out = zc.get_shifted_root_seq(root, ncs, D)
+                # 36.211: r^(alpha)(k) = exp(j alpha k) r(k),
+                # alpha = 2 pi n_cs / D
+                ref = np.empty(N, dtype=object)
+                for k in range(N):
+                    ang = ncs * (Fraction(2 * np.pi) * k / D)
+                    ref[k] = SComplex(0, ang).exp() * before[k]
             prove_zero(ctx, '|shifted_k|^2=1', [_abs2(e) - 1 for e in out],
                        fallback_exact=False)
-            # 36.211: r^(alpha)(k) = exp(j alpha k) r(k), alpha = 2 pi n_cs/D
-            ref = np.empty(N, dtype=object)
-            for k in range(N):
-                ang = ncs * (Fraction(2 * np.pi) * k / D)
-                ref[k] = SComplex(0, ang).exp() * root[k]
             prove_zero(ctx, 'shifted_k=exp(j 2 pi n_cs k/D) root_k',
                        out - ref, fallback_exact=False)
+            prove_zero(ctx, 'root-argument-unchanged', root - before,
+                       fallback_exact=False)
         else:
             for u in cfg['us']:
                 a = rs.RootSequence(u, size=cfg['size']).seq_array()
@@ -489,7 +509,7 @@ class Amplitude(Harness):
             ref = np.exp(-1j * np.pi * u * m * (m + 1) / n)
         elif cfg['kind'] == 'shift':
             root = _numeric_root(cfg['N'], rng.randint(1, 5)).seq_array()
-            ncs = rng.randint(0, cfg['D'] - 1)
+            ncs = rng.choice([0, rng.randint(0, cfg['D'] - 1)])
             a = zc.get_shifted_root_seq(root, ncs, cfg['D'])
             ref = np.exp(2j * np.pi * ncs * np.arange(cfg['N']) /
                          cfg['D']) * root
@@ -570,80 +590,167 @@ class Amplitude(Harness):
 # ---------------------------------------------------------------------------
 class LsEstimator(Harness):
     """H3: compute_ls_estimation(H s, s) = H for every pilot matrix of full
-    row rank."""
+    row rank -- including single-antenna pilot rows with empty (zero)
+    positions (comb / on-off pilots) and non-constant modulus -- and
+    compute_ls_estimation(Y, s) (s s^H) = Y s^H for an arbitrary (noisy)
+    observation; 2-D input, 3-D input with shared 2-D pilots and 3-D input
+    with per-realisation pilots."""
     name = 'ls-estimator'
     modules = (EST, )
     builtins = NAMES
     functions = (EST + ':compute_ls_estimation', )
     bounds = ('pilots Nt x Np in {1x1, 1x2, 2x2, 2x3} (+1x3, 3x3, 2x4 '
               'thorough) symbolic complex, channel Nr x Nt, Nr in {1, 2} (+3, '
-              '4 thorough)')
+              '4 thorough); Nt = 1 rows with 1..2 entries fixed to 0 and the '
+              'others symbolic (Np 3, 4); layouts 2-D, 3-D Y with 2-D s, 3-D Y '
+              'with 3-D s (2 realisations, zero positions rotated)')
     stubs = ('np.linalg.inv -> X with A X = X A = I (Hermitian for a '
-             'Hermitian argument); exact division for 1x1', )
+             'Hermitian argument); exact division for 1x1',
+             'np.common_type of symbolic arrays -> object')
     assumptions = ('pilot matrix has full row rank (s s^H non-singular)', )
-    outside = ('3-D inputs (num_realizations axis) symbolically: '
-               'np.common_type rejects object arrays; run concretely', )
     div_mode = 'assume'
 
     def configs(self, tier):
         shapes = [(1, 1), (1, 2), (2, 2), (2, 3)]
         nrs = [1, 2]
-        out = [dict(Nt=a, Np=b, Nr=nr) for a, b in shapes for nr in nrs]
+        out = [dict(Nt=a, Np=b, Nr=nr, dim='2d', zeros=[])
+               for a, b in shapes for nr in nrs]
+        # single transmit antenna, empty pilot positions
+        for dim in ('2d', '3d-2d', '3d-3d'):
+            out.append(dict(Nt=1, Np=3, Nr=2, dim=dim, zeros=[1]))
+            out.append(dict(Nt=1, Np=4, Nr=1, dim=dim, zeros=[1, 3]))
+        out.append(dict(Nt=1, Np=2, Nr=2, dim='3d-2d', zeros=[]))
+        out.append(dict(Nt=2, Np=2, Nr=1, dim='3d-3d', zeros=[]))
         if tier != 'quick':
-            out += [dict(Nt=1, Np=3, Nr=4), dict(Nt=3, Np=3, Nr=1),
-                    dict(Nt=2, Np=4, Nr=3), dict(Nt=2, Np=2, Nr=4)]
+            out += [dict(Nt=1, Np=3, Nr=4, dim='2d', zeros=[]),
+                    dict(Nt=3, Np=3, Nr=1, dim='2d', zeros=[]),
+                    dict(Nt=2, Np=4, Nr=3, dim='2d', zeros=[]),
+                    dict(Nt=2, Np=2, Nr=4, dim='2d', zeros=[]),
+                    dict(Nt=1, Np=4, Nr=3, dim='3d-3d', zeros=[0]),
+                    dict(Nt=1, Np=6, Nr=2, dim='2d', zeros=[1, 3, 5]),
+                    dict(Nt=2, Np=3, Nr=2, dim='3d-2d', zeros=[])]
         return out
+
+    @staticmethod
+    def _zero_positions(cfg, i):
+        """zero pilot positions of realisation i (rotated for 3-D pilots)"""
+        return sorted((z + i) % cfg['Np'] for z in cfg['zeros'])
+
+    def _layout(self, cfg, mk_s, mk_H, mk_Y):
+        """(Y_noise_free, Y_arbitrary, s, H, per-realisation list) in the
+        layout of cfg['dim']; mk_*(tag, shape) create the entries"""
+        Nt, Np_, Nr = cfg['Nt'], cfg['Np'], cfg['Nr']
+        R = 1 if cfg['dim'] == '2d' else 2
+        S, Hs = [], []
+        for i in range(R):
+            if i == 0 or cfg['dim'] == '3d-3d':
+                si = mk_s('s%d' % i, (Nt, Np_))
+                if Nt == 1:
+                    for z in self._zero_positions(cfg, i):
+                        si[0, z] = si[0, z] * 0
+                S.append(si)
+            else:
+                S.append(S[0])
+            Hs.append(mk_H('H%d' % i, (Nr, Nt)))
+        Yn = [mk_Y('Y%d' % i, (Nr, Np_)) for i in range(R)]
+        Y0 = [np.dot(Hs[i], S[i]) for i in range(R)]
+        if cfg['dim'] == '2d':
+            return Y0[0], Yn[0], S[0], Hs, S
+        st = (lambda xs: np.stack(xs))
+        s_arg = S[0] if cfg['dim'] == '3d-2d' else st(S)
+        return st(Y0), st(Yn), s_arg, Hs, S
 
     def sym(self, ctx, cfg):
         est = repo_module(EST)
-        Nt, Np_, Nr = cfg['Nt'], cfg['Np'], cfg['Nr']
-        s = sym_array(ctx, 's', (Nt, Np_), kind='complex')
-        H = sym_array(ctx, 'H', (Nr, Nt), kind='complex')
-        Y = np.dot(H, s)
-        got = est.compute_ls_estimation(Y, s)
-        assert got.shape == (Nr, Nt), got.shape
-        prove_zero(ctx, 'LS(H s, s)=H', got - H, rounds=3,
+
+        def mk(tag, shape):
+            return sym_array(ctx, tag, shape, kind='complex')
+        Y0, Yn, s, Hs, S = self._layout(cfg, mk, mk, mk)
+        got = est.compute_ls_estimation(Y0, s)
+        want = Hs[0] if cfg['dim'] == '2d' else np.stack(Hs)
+        assert got.shape == want.shape, (got.shape, want.shape)
+        prove_zero(ctx, 'LS(H s, s)=H', got - want, rounds=3,
+                   fallback_exact=False)
+        # arbitrary observation: normal equations  G (s s^H) = Y s^H
+        gotn = est.compute_ls_estimation(Yn, s)
+        res = []
+        for i in range(len(S)):
+            G = gotn if cfg['dim'] == '2d' else gotn[i]
+            Y = Yn if cfg['dim'] == '2d' else Yn[i]
+            sh = C.herm(S[i])
+            res.append(C.mm(C.as_cmat(G), C.as_cmat(S[i]), sh) -
+                       C.mm(C.as_cmat(Y), sh))
+        prove_zero(ctx, 'LS(Y, s) s s^H = Y s^H', res, rounds=3,
                    fallback_exact=False)
 
-    def _check(self, inp):
+    def expected_exception(self, cfg, exc):
+        return False
+
+    def _numeric(self, cfg, rng, comb=False):
+        """symptoms on plain numpy values"""
         est = repo_module(EST)
-        s, H = inp
-        got = est.compute_ls_estimation(H @ s, s)
-        sc = np.linalg.cond(s)**2 * max(1.0, np.max(np.abs(H)))
-        return [] if np.allclose(got, H, atol=1e-9 * sc) else ['ls']
+
+        def mk_s(tag, shape):
+            a = crandn(rng, *shape)
+            if comb:        # constant-modulus comb: every other one empty
+                a = np.exp(2j * np.pi * np.array(
+                    [[rng.random() for _ in range(shape[1])]
+                     for _ in range(shape[0])]))
+                a[:, 1::2] = 0
+            return a
+
+        def mk(tag, shape):
+            return crandn(rng, *shape)
+        Y0, Yn, s, Hs, S = self._layout(cfg, mk_s, mk, mk)
+        want = Hs[0] if cfg['dim'] == '2d' else np.stack(Hs)
+        sc = max(np.linalg.cond(x) for x in S)**2
+        bad = []
+        with np.errstate(all='ignore'):
+            got = np.asarray(est.compute_ls_estimation(Y0, s))
+            gotn = np.asarray(est.compute_ls_estimation(Yn, s))
+        if got.shape != want.shape or not np.all(np.isfinite(got)) or \
+                not np.allclose(got, want, atol=1e-9 * sc):
+            bad.append('noise-free-estimate')
+        ref = [(Yn if cfg['dim'] == '2d' else Yn[i]) @ S[i].conj().T @
+               np.linalg.inv(S[i] @ S[i].conj().T) for i in range(len(S))]
+        ref = ref[0] if cfg['dim'] == '2d' else np.stack(ref)
+        if gotn.shape != ref.shape or not np.all(np.isfinite(gotn)) or \
+                not np.allclose(gotn, ref, atol=1e-9 * sc * max(
+                    1.0, float(np.max(np.abs(ref))))):
+            bad.append('not-the-LS-solution')
+        return bad
 
     def replay(self, cfg, name, model):
-        Nt, Np_, Nr = cfg['Nt'], cfg['Np'], cfg['Nr']
-        first = (carray_from_model(model, 's', (Nt, Np_)),
-                 carray_from_model(model, 'H', (Nr, Nt)))
-        if np.linalg.matrix_rank(first[0]) < Nt:
-            first = None
-        bad, inp = search_witness(
-            self._check, first,
-            gen=lambda r: (crandn(r, Nt, Np_), crandn(r, Nr, Nt)), tries=24)
-        return dict(reproduced=bool(bad),
-                    key='C18/compute_ls_estimation/not-exact:%dx%d' % (Nt, Np_),
-                    detail=str(inp)[:300])
+        for seed in range(24):
+            r = random.Random(seed)
+            if np.linalg.cond(crandn(random.Random(seed), cfg['Nt'],
+                                     cfg['Np'])) > 1e3:
+                continue
+            bad = self._numeric(cfg, r)
+            if bad:
+                cls = '%dx%d:%s' % (cfg['Nt'], cfg['Np'], cfg['dim'])
+                if cfg['zeros']:
+                    cls += ':empty-pilot-positions'
+                return dict(reproduced=True,
+                            key='C18/compute_ls_estimation/%s/%s' %
+                            ('+'.join(bad), cls),
+                            detail=dict(cfg=cfg, seed=seed))
+        return dict(reproduced=False, key=None, detail='LS estimate exact')
 
     def concrete(self, cfg, rng):
-        est = repo_module(EST)
-        Nt, Np_, Nr = cfg['Nt'], cfg['Np'], cfg['Nr']
         n = 0
         for _ in range(4):
-            assert not self._check((crandn(rng, Nt, Np_), crandn(rng, Nr, Nt)))
+            bad = self._numeric(cfg, rng)
+            assert not bad, (cfg, bad)
             n += 1
-        # 3-D variants (same / different pilots per realisation)
-        H = crandn(rng, 3, Nr, Nt)
-        s2 = crandn(rng, Nt, Np_)
-        s3 = crandn(rng, 3, Nt, Np_)
-        Y2 = np.stack([H[i] @ s2 for i in range(3)])
-        Y3 = np.stack([H[i] @ s3[i] for i in range(3)])
-        sc = max(np.linalg.cond(s2), max(np.linalg.cond(x) for x in s3))**2
-        assert np.allclose(est.compute_ls_estimation(Y2, s2), H,
-                           atol=1e-8 * sc)
-        assert np.allclose(est.compute_ls_estimation(Y3, s3), H,
-                           atol=1e-8 * sc)
-        return n + 2
+        if cfg['Nt'] == 1:
+            # comb-type pilots [p, 0, p, 0, ...], 8 positions, every layout
+            for dim in ('2d', '3d-2d', '3d-3d'):
+                c = dict(cfg, Np=8, dim=dim, zeros=[])
+                bad = self._numeric(c, rng, comb=True)
+                assert not bad, (c, bad)
+                n += 1
+        return n
 
 
 # ---------------------------------------------------------------------------
@@ -676,21 +783,28 @@ class _Scenario:
         N, M, Nr = cfg['N'], cfg['M'], cfg['Nr']
         norm = cfg['normalize']
         kind = cfg['kind']
+        # the root sequence (one cell) is shared by every user: its values
+        # as they were before any user sequence was derived from it
+        self.root = root
+        self.before = np.array(root.seq_array(), copy=True)
+
+        def make(n_cs, nm, cc=None):
+            if kind == 'srs':
+                return srs.SrsUeSequence(root, n_cs, normalize=nm)
+            if kind == 'dmrs':
+                return dm.DmrsUeSequence(
+                    root, n_cs, cover_code=None if cc is None else np.array(cc),
+                    normalize=nm)
+            if kind == 'generic':
+                arr = zc.get_shifted_root_seq(root.seq_array(), n_cs, cfg['D'])
+                return srs.UeSequence(root, n_cs, arr, normalize=nm)
+            return root.seq_array()   # 'array': estimator gets a bare ndarray
+        # earlier users of the same cell (objects kept alive, not used again)
+        self.earlier = [make(n, nm) for n, nm in cfg.get('history', [])]
         users = []
         for j, n_cs in enumerate(cfg['shifts']):
             cc = cfg['covers'][j] if cfg.get('covers') else None
-            if kind == 'srs':
-                ue = srs.SrsUeSequence(root, n_cs, normalize=norm)
-            elif kind == 'dmrs':
-                ue = dm.DmrsUeSequence(
-                    root, n_cs, cover_code=None if cc is None else np.array(cc),
-                    normalize=norm)
-            elif kind == 'generic':
-                arr = zc.get_shifted_root_seq(root.seq_array(), n_cs, cfg['D'])
-                ue = srs.UeSequence(root, n_cs, arr, normalize=norm)
-            else:   # 'array': the estimator is given a bare ndarray
-                ue = root.seq_array()
-            users.append(ue)
+            users.append(make(n_cs, norm, cc))
         self.users = users
         self.h = [chan(j, L, Nr) for j, L in enumerate(cfg['taps'])]
         self.H = []
@@ -719,6 +833,47 @@ class _Scenario:
         else:
             self.est = che.CazacBasedChannelEstimator(users[0],
                                                       size_multiplier=M)
+
+    def user_formula_residuals(self):
+        """36.211: user sequence = exp(j 2 pi n_cs k / D) * root_k (times the
+        cover-code element, divided by sqrt(N) when normalised), with the
+        root values as they were BEFORE any user was created.  Returns the
+        residual arrays (all zero iff the formula holds)."""
+        cfg = self.cfg
+        D = _kinds(cfg)
+        if cfg['kind'] == 'array' or not D:
+            return []
+        N = cfg['N']
+        sym = is_sym(self.before)
+        out = []
+        todo = [(u, n, nm, None) for u, (n, nm) in
+                zip(self.earlier, cfg.get('history', []))]
+        todo += [(u, n, cfg['normalize'],
+                  cfg['covers'][j] if cfg.get('covers') else None)
+                 for j, (u, n) in enumerate(zip(self.users, cfg['shifts']))]
+        for ue, n_cs, nm, cc in todo:
+            if sym and 24 % D:
+                continue
+            if sym:
+                ramp = np.array([dft.twiddle(D, n_cs * k, inverse=True)
+                                 for k in range(N)], dtype=object)
+                scale = SReal(N).sqrt() if nm else 1
+            else:
+                ramp = np.exp(2j * np.pi * n_cs * np.arange(N) / D)
+                scale = math.sqrt(N) if nm else 1
+            ref = ramp * self.before
+            seq = ue.seq_array()
+            if cc is None:
+                out.append(seq * scale - ref)
+            else:
+                for c, w in enumerate(cc):
+                    out.append(seq[c] * scale - ref * w)
+        return out
+
+    def root_residual(self):
+        """the shared root sequence still has the values it had before the
+        users were derived from it"""
+        return self.root.seq_array() - self.before
 
     def estimate(self):
         """The same observation array is used for several estimates (another
@@ -768,6 +923,8 @@ def _classify(cfg):
         parts = ['multi-user', cfg['kind'], 'M=%d' % cfg['M']]
     if cfg.get('covers'):
         parts.append('occ')
+    if cfg.get('history'):
+        parts.append('after-earlier-users-of-the-same-root')
     return ':'.join(parts)
 
 
@@ -805,10 +962,18 @@ class _CazacBase(Harness):
         sc = _Scenario(cfg, root, chan)
         if cfg.get('orth'):
             self._orthogonal(ctx, cfg, sc)
+        prove_zero(ctx, 'root-sequence-unchanged-by-its-users',
+                   sc.root_residual(), fallback_exact=False)
+        res = sc.user_formula_residuals()
+        if res:
+            prove_zero(ctx, 'user-sequence=exp(j 2 pi n_cs k/D) root_k', res,
+                       fallback_exact=False)
         out, want = sc.estimate()
         assert out.shape == want.shape, (out.shape, want.shape)
         prove_zero(ctx, 'estimate=frequency-response[%s]' % _classify(cfg),
                    out - want, fallback_exact=False)
+        prove_zero(ctx, 'root-sequence-unchanged-by-estimation',
+                   sc.root_residual(), fallback_exact=False)
 
     def _orthogonal(self, ctx, cfg, sc):
         """user sequences of different shifts are orthogonal (N multiple of
@@ -843,6 +1008,10 @@ class _CazacBase(Harness):
         bad = []
         if out.shape != want.shape or err > 1e-9 * cfg['N']:
             bad.append('estimate')
+        if np.max(np.abs(sc.root_residual())) > 1e-12:
+            bad.append('root-sequence-mutated')
+        if any(np.max(np.abs(r)) > 1e-9 for r in sc.user_formula_residuals()):
+            bad.append('user-sequence')
         if cfg.get('orth'):
             seqs = [x.seq_array() for x in sc.users]
             seqs = [s if s.ndim == 1 else s[0] for s in seqs]
@@ -867,9 +1036,11 @@ class _CazacBase(Harness):
                                       random.Random(seed))
                 if not b2:
                     symptom = 'keeps-num_taps_to_keep+1-taps'
+            site = 'CazacBasedChannelEstimator.estimate_channel_freq_domain'
+            if 'root-sequence-mutated' in bad or 'user-sequence' in bad:
+                site = 'UeSequence'
             return dict(reproduced=True,
-                        key='C18/CazacBasedChannelEstimator.estimate_channel_'
-                        'freq_domain/%s/%s' % (symptom, _classify(cfg)),
+                        key='C18/%s/%s/%s' % (site, symptom, _classify(cfg)),
                         detail=dict(cfg=cfg, seed=seed, max_abs_error=err,
                                     lte_size_example=_lte_example()))
         return dict(reproduced=False, key=None, detail='estimate exact')
@@ -961,6 +1132,28 @@ class CazacSingle(_CazacBase):
                             flat=(cc[1] > 0), normalize=(cc[1] > 0)))
         out.append(_cfg('dmrs', 4, 1, 1, [1], covers=[[1, -1]], flat=True))
         out.append(_cfg('dmrs', 3, 1, 2, [2], covers=[[-1, 1]], Nr=2))
+        # history on ONE root object: a normalised user on cyclic shift 0
+        # (no cover code) was created first; the root must keep its values
+        # and later users / their estimates must be unaffected
+        hist = [[0, True]]
+        out.append(_cfg('srs', 8, 1, 2, [2], shifts=[3], history=hist))
+        out.append(_cfg('dmrs', 12, 1, 1, [1], shifts=[11], history=hist))
+        out.append(_cfg('dmrs', 12, 1, 1, [1], shifts=[4], real_root=5,
+                        history=hist))
+        out.append(_cfg('srs', 4, 2, 2, [2], shifts=[0],
+                        history=[[0, True], [0, True]]))
+        out.append(_cfg('generic', 8, 1, 2, [2], shifts=[1], D=4, Nr=2,
+                        history=hist))
+        if not q:
+            for kind, N, D in (('srs', 8, 8), ('dmrs', 12, 12)):
+                for n in range(D):
+                    out.append(_cfg(kind, N, 1, 1, [1], shifts=[n],
+                                    normalize=bool(n % 2), Nr=1 + n % 2,
+                                    history=[[0, True], [n, False],
+                                             [(n + 1) % D, True]]))
+            for u in (0, 9, 29):
+                out.append(_cfg('dmrs', 12, 1, 2, [2], shifts=[u % 12],
+                                real_root=u, history=[[0, True], [0, False]]))
         # real table sequence of one PRB, real DMRS objects
         for u in ([0, 17] if q else range(30)):
             out.append(_cfg('dmrs', 12, 1, 1, [1], shifts=[u % 12],
@@ -1066,6 +1259,11 @@ class CazacMulti(_CazacBase):
         out.append(_cfg('dmrs', 4, 1, 2, [2, 2], shifts=[0, 0],
                         covers=[[1, -1], [1, 1]], Nr=2, flat=True,
                         normalize=True))
+        # earlier normalised users on shift 0 derived from the same root
+        out.append(_cfg('srs', 8, 1, 1, [1] * 3, shifts=[3, 5, 7],
+                        history=[[0, True]], orth=True))
+        out.append(_cfg('dmrs', 12, 1, 1, [1] * 3, shifts=[2, 3, 7],
+                        real_root=11, history=[[0, True], [0, True]]))
         # T = window and a user on the previous shift (relative shift D-1):
         # the documented tap window 0..T-1 excludes that user's taps
         out.append(_cfg('srs', 8, 1, 1, [1, 1], shifts=[0, 7]))
